@@ -21,33 +21,59 @@ RULE = ("view trees drawn from one PRNG (VERIF_SEED) over the grammar text (incl
         "show_b}, EitherOf3, Result Ok/Err, StaticVec, [T; 2], Arc<str>/Cow<str>, OwnedView), streamed (in-order / "
         "out-of-order streams with Suspends pending at render time, template+script swap emulated), resolved "
         "(view.resolve().await.to_html() with futures completing in a chosen order); every tenth view is also rendered through to_html_stream_in_order / "
-        "_out_of_order (kind streamed-forms) and the concatenated chunks compared with to_html(). A case is non-trivial when its DOM has at least 3 nodes and the walk has to "
+        "_out_of_order (kind streamed-forms) and the concatenated chunks compared with to_html(). "
+        "Added by the anchor coverage audit (coverage/C05.md, grammar in gen/c05w.py, all oracle-only): hydrate-wide — "
+        "the other value types and representations (&'static str, Cow::Borrowed/Owned, Arc<str>; 16 primitive types "
+        "incl. char needing escapes, floats, 128-bit integers, IP / socket addresses, NonZero), flat tuples of 5-12 "
+        "parts and up to six .child() calls, arrays of 0/1/3, empty StaticVec, EitherOf3/4/8/16 changing their branch, "
+        "custom elements, SVG, li/ol/a/em/h1/button/label, noscript, elements with class / class:x / style / style:x / "
+        "hidden / dir / data-* / inner_html / Either-valued attributes in every representation, attribute spreading "
+        "(add_any_attr) on the typed view of every kind, hydrated through hydrate_from or through "
+        "hydrate_from_position(el, Position::Current) with a following sibling; hydrate-typed — roots of concrete type "
+        "(<div ATTR>{&str}{Cow}{Cow}{rest}), because AnyView / AnyAttribute store the owned forms; hydrate-reactive — "
+        "closures (FnMut / Arc<dyn Fn> / Arc<Mutex<dyn FnMut>>) and signals of 9 types as children and as dir / class / "
+        "class:on / style:width / style values, closures returning switching views / Either / Option / Vec / keyed, "
+        "Suspends that are pending on the client (server side of a local resource), rendered by to_html or a stream, "
+        "hydrated under the harness executor next to a client-built twin sharing the signals, then 1-4 steps of "
+        "signal writes, polls in a chosen order and future completions, finally both states dropped. "
+        "A case is non-trivial when its DOM has at least 3 nodes and the walk has to "
         "consume at least one marker/separator comment or descend into an element; distinct = distinct case hash.")
 TRUSTED = [
     "Coq 8.16.1 kernel (coqc); no axioms: every theorem of Properties_C05.v is 'Closed under the global context'",
     "extraction to OCaml with ExtrOcamlBasic only, ocamlfind ocamlopt 4.13.1, extract/driver.ml sexp I/O",
-    "harness/dom/src/c05.rs (Rust): builds the real tachys view for a case (String, (), HtmlElement, tuples, Option, "
-    "Either, Vec, AnyView, keyed, InertElement, u32), real to_html(), real hydrate::<true>, real build/rebuild; "
-    "its own ~150-line HTML parser for the emitted subset",
-    "the native in-memory DOM of tachys under cfg(leptos_verif) (verif-hook 7e91a9c) standing in for the browser DOM",
+    "harness/dom/src/c05.rs + c05x.rs (Rust): builds the real tachys view for a case, real to_html() / streams / "
+    "resolve(), real hydrate::<true> / hydrate_from / hydrate_from_position, real build/rebuild, real RenderEffects "
+    "under the harness executor of c04.rs; its own ~200-line HTML parser for the emitted subset",
+    "the native in-memory DOM of tachys under cfg(leptos_verif) (verif-hook 7e91a9c) standing in for the browser DOM; "
+    "it keeps the style attribute and the CSSOM apart, the harness compares their union (no style property is ever "
+    "removed after hydration in a generated case)",
     "modelled, not verified: the HTML tokenizer / tree-construction subset of Dom/HydrateModel.v (states and rules "
     "transcribed from the WHATWG standard for the emitted subset; anything else is an explicit error) — a browser is "
     "assumed to parse this subset as the standard says; the model's parser is diffed against the harness parser on "
-    "every generated string",
+    "every generated string of the proved grammar",
     "html_escape::encode_text / encode_double_quoted_attribute are transcribed (esc_text, esc_attr) and compared "
     "byte-for-byte on every case",
     "every view is built behind AnyView in the harness (type erasure at each recursion point); AnyView forwards "
     "to_html/hydrate unchanged, so the statically typed paths (tuples, Either, Option, Vec, HtmlElement) are the ones "
-    "exercised underneath",
+    "exercised underneath; the representations AnyView converts (&str / Cow children, String / &str / closure valued "
+    "attributes) are driven as roots of concrete type (kind hydrate-typed)",
+    "compared, not proved (kinds hydrate-extra / -wide / -typed / -reactive, streamed, resolved): the oracle demands "
+    "that hydration succeeds, creates nothing, and that the hydrated tree equals a client-built twin after hydration, "
+    "after rebuilds and at every executor-idle point of a reactive history; the harness parser alone stands for the "
+    "browser there (li / a / h1 / button / svg follow the generic tree-construction rule in the nestings generated)",
 ]
 ASSUMPTIONS = [
     "the markup is parsed as the children of a <div>/<body>-like context element in the 'in body' insertion mode "
-    "(fragment case); document-level modes (before html, in head, after body) are not modelled",
+    "(fragment case); document-level modes (before html, in head, after body), tables and select are not modelled",
     "wf: element names from the modelled subset with the void-ness the parser gives them, no element that closes an "
-    "open <p> nested inside a <p>, attribute names [a-z][a-z0-9-]*, distinct per element, text and attribute values "
+    "open <p> nested inside a <p>, no nested <a> / <button> / heading, <li> only as a child of ul/ol, attribute names "
+    "[a-z][a-z0-9-]*, distinct per element, text and attribute values "
     "without U+0000 (dropped by the tree builder) and U+000D (normalised to LF) — outside wf a browser re-parents or "
     "drops nodes and hydration legitimately fails",
-    "escape = true (children of script/style are not hydrated), mark_branches = false",
+    "escape = true (children of script/style are not hydrated), mark_branches = false (the islands-router forms "
+    "to_html*_branching put <!--bo-…--> comments into the markup that no hydrate skips: not a hydration target)",
+    "one attribute name has one owner per element (a spread attribute never repeats a name the element sets itself; "
+    "a dynamic class= is never combined with a dynamic class:x on the same element: the result depends on effect order)",
 ]
 
 ELEM = ["div", "span", "p", "section", "ul", "main"]
@@ -627,11 +653,36 @@ def valid_case(item):
         if not (W.wide_ok(c[1], W.Ctx()) and W.no17(c[1]) and W.wide_ok(c[2], W.Ctx())):
             return False
         return c[4] == 0 or c[1][0] in (2, 3, 12, 26)
+    if item.get("kind") == "hydrate-typed":
+        # (7 typed typed2 skip entry), typed = ((kind repr value) (t1 t2 t3) rest)
+        try:
+            seven, t1, t2, skip, entry = c
+            if not (seven == 7 and skip in (0, 1) and entry in (0, 1) and t1[0][:2] == t2[0][:2]):
+                return False
+            for t in (t1, t2):
+                (k, rp, val), texts, rest = t
+                if (k, rp) not in TYPED_KINDS or len(texts) != 3 or not all(W._utf8_ok(x) for x in texts):
+                    return False
+                if k == 9:
+                    if not (val[0] == 1 and W._utf8_ok(val[1])):
+                        return False
+                elif not W.rich_attrs_ok([[k, rp, val]], k == 7, W.Ctx()):
+                    return False
+                if not W.wide_ok(rest, W.Ctx().child(0)):
+                    return False
+            return W.no17(t1[2])
+        except Exception:
+            return False
     if item.get("kind") == "hydrate-reactive":
         # (4 form v sigs steps early)
         try:
             four, form, v, sigs, steps, early = c
             ctx = W.Ctx(True, len(sigs))
+            if v[0] == 31:
+                # a typed root: (31 (kind repr sig) rest)
+                if not (len(v) == 3 and v[1][0] in (10, 11, 12, 13, 14) and v[1][1] in (0, 1) and 0 <= v[1][2] < len(sigs)):
+                    return False
+                v = [2, 0, [], [v[2]]]
             loc = W.local_ids(v)
             return (four == 4 and form in (0, 1, 2) and early in (0, 1) and 1 <= len(sigs) <= 4 and all(0 <= x < 100 for x in sigs)
                     and W.wide_ok(v, ctx) and W.no17(v) and len(set(loc)) == len(loc) and not (loc and form == 0)
@@ -702,6 +753,8 @@ def generate(rng, tier):
             yield dict(case=[0, x, flip_extras(rng, x), rng.randint(0, 1)], kind="hydrate-extra", compare=False)
         if i % 3 == 0:
             yield gen_wide_case(rng)
+        if i % 6 == 2:
+            yield gen_typed_case(rng)
         if i % 3 == 1:
             yield gen_reactive_case(rng)
 
@@ -718,6 +771,36 @@ def gen_wide_case(rng):
     return dict(case=[6, v, v2, rng.randint(0, 1), entry], kind="hydrate-wide", compare=False)
 
 
+TYPED_KINDS = [(0, 0), (0, 1), (0, 2), (0, 3), (1, 0), (1, 1), (1, 3), (1, 4), (3, 0), (3, 2), (5, 0), (5, 1), (5, 3),
+               (6, 0), (6, 1), (6, 2), (7, 0), (7, 1), (7, 2), (7, 3), (8, 0), (8, 1), (9, 0)]
+
+
+def _typed_value(rng, k, rp):
+    opt = (k, rp) in ((0, 3), (1, 4), (5, 3), (7, 3))
+    if opt and rng.random() < 0.35:
+        return [0]
+    if k == 1:
+        return [1, b(rng.choice(W.CLASS_VALS))]
+    if k == 3:
+        return [1, b(rng.choice(W.STYLE_VALS))]
+    if k == 5:
+        return [1, b(rng.choice(W.WHOLE_STYLES))]
+    if k == 7:
+        return [1, b(rng.choice(["plain", "<em>hi</em> there", "a&amp;b", "<span title=\"t\">x</span><br>", "", "<!>"]))]
+    return [1, b(W.gen_text(rng))]
+
+
+def gen_typed_case(rng):
+    """a root of CONCRETE type: <div ATTR>{&'static str}{Cow::Borrowed}{Cow::Owned}{rest}</div> — the string and
+    attribute representations that AnyView / AnyAttribute would convert to their owned forms"""
+    k, rp = rng.choice(TYPED_KINDS)
+    ctx = W.Ctx().child(0)
+    rest = W.gen_wide(rng, rng.choice([0, 1, 2]), ctx)
+    t1 = [[k, rp, _typed_value(rng, k, rp)], [b(W.gen_text(rng)) for _ in range(3)], rest]
+    t2 = [[k, rp, _typed_value(rng, k, rp)], [b(W.gen_text(rng)) for _ in range(3)], W.mutate_wide(rng, rest, W.Ctx().child(0))]
+    return dict(case=[7, t1, t2, rng.randint(0, 1), rng.randint(0, 1)], kind="hydrate-typed", compare=False)
+
+
 def gen_reactive_case(rng):
     """views with dynamic parts (closures / shared functions / signals as children and attribute values, local
     Suspends), hydrated under a running executor and driven through signal writes next to a client-built twin"""
@@ -729,7 +812,10 @@ def gen_reactive_case(rng):
         dynamic = W.has_op(v, (27,)) or W.local_ids(v) or any(x[0] == 26 and any(a[0] >= 10 for a in x[2]) for x in W.walk(v))
         if dynamic and not W.has_op(v, (15,)):
             break
-    loc = W.local_ids(v)
+    if rng.random() < 0.15:
+        # typed root: a closure / Arc<dyn Fn> valued attribute on the concrete element type
+        v = [31, [rng.choice([10, 11, 12, 13, 14]), rng.randint(0, 1), rng.randrange(nsig)], v[3][0]]
+    loc = W.local_ids(v[2] if v[0] == 31 else v)
     form = rng.choice([1, 2]) if loc else rng.choice([0, 0, 1, 2])
     sigs = [rng.randint(0, 9) for _ in range(nsig)]
     steps = []
@@ -814,7 +900,7 @@ def oracle(item, impl):
         if impl[5] != 0:
             return "%d DOM operations of the hydrated view or its twin were rejected by the DOM (wrong parent / anchor)" % impl[5]
         return None
-    if item.get("kind") in ("hydrate-extra", "hydrate-wide"):
+    if item.get("kind") in ("hydrate-extra", "hydrate-wide", "hydrate-typed"):
         if len(impl) == 3 and impl[2] == [0]:
             return "hydration failed: a node of the expected kind was not found where the walk looked for it"
         if len(impl) < 6:
@@ -878,7 +964,7 @@ def oracle(item, impl):
 
 
 def nontrivial(item, model):
-    if item.get("kind") in ("streamed", "resolved", "hydrate-extra", "hydrate-wide", "hydrate-reactive"):
+    if item.get("kind") in ("streamed", "resolved", "hydrate-extra", "hydrate-wide", "hydrate-typed", "hydrate-reactive"):
         return True
     if isinstance(model, str) or len(model) < 3 or item.get("kind") == "streamed-forms":
         return False
@@ -898,9 +984,10 @@ def classify(item, impl, model):
         # F-C05-d = C07's open finding F-C07-a seen from the hydration side: exactly the streamed cases in
         # which the Position a pending Suspend hands back changes the markup
         return "F-C05-d" if stale_position_matters(item) else None
-    if item.get("kind") == "hydrate-wide" and len(impl) >= 6 and impl[2][0] == 1 and impl[3] == 1 \
-            and any(x[0] == 15 and x[3] for x in W.walk(item["case"][1])):
-        return "F-C05-c"
+    if item.get("kind") in ("hydrate-wide", "hydrate-typed") and len(impl) >= 6 and impl[2][0] == 1 and impl[3] == 1:
+        v = item["case"][1] if item["kind"] == "hydrate-wide" else item["case"][1][2]
+        if any(x[0] == 15 and x[3] for x in W.walk(v)):
+            return "F-C05-c"
     if item.get("kind") == "hydrate" and len(impl) >= 6 and impl[2][0] == 1 and impl[3] == 1 \
             and has_raw_parts(item["case"][1]):
         # hydration itself succeeded and created nothing: what differs is the content of a raw-text element
@@ -976,6 +1063,23 @@ def describe(it):
     if c[0] == 6:
         return "hydrate (%s) %s ; then rebuild with %s" % (
             "hydrate_from_position(el, Position::Current)" if c[4] else "hydrate_from(root)", W.show(c[1]), W.show(c[2]))
+    if c[0] == 7:
+        def ty(t):
+            (k, rp, val), texts, rest = t
+            a = W.show([26, 0, [[k, rp, val]], []])[5:-4] if k != 9 else "title=%r" % C.show_bytes(val[1])
+            if k == 7:
+                return "<div %s>[]" % a
+            return "<div %s>[&'static str(%r), Cow::Borrowed(%r), Cow::Owned(%r), %s]" % (
+                a, C.show_bytes(texts[0]), C.show_bytes(texts[1]), C.show_bytes(texts[2]), W.show(rest))
+        return "hydrate (typed root, %s) %s ; then rebuild with %s" % (
+            "hydrate_from_position(el, Position::Current)" if c[4] else "hydrate_from(root)", ty(c[1]), ty(c[2]))
+    if c[0] == 4 and c[2][0] == 31:
+        kinds = {10: "dir", 11: "class", 12: "class:on", 13: "style:width", 14: "style"}
+        v = c[2]
+        return "%s of typed <div %s={%s over s%d}>[%s] with signals %r ; hydrate next to a client-built twin ; steps %s" % (
+            ["to_html", "in-order stream", "out-of-order stream"][c[1]], kinds[v[1][0]], ["FnMut", "Arc<dyn Fn>"][v[1][1]], v[1][2],
+            W.show(v[2]), c[3],
+            "; ".join("set %s, poll %r, complete %r" % (",".join("s%d=%d" % (i, x) for i, x in w), p, k) for w, p, k in c[4]))
     if c[0] == 4:
         return "%s of %s with signals %r%s ; hydrate next to a client-built twin ; steps %s ; then complete all, drop both" % (
             ["to_html", "in-order stream", "out-of-order stream"][c[1]], W.show(c[2]), c[3],
@@ -1025,6 +1129,11 @@ LEVEL_TEXT = ("Coq proofs, for all well-nested views of the combinator grammar (
 LEVEL_NOTE = ("Trusted: Coq kernel, extraction + OCaml driver, the Rust harness and its parser, the native DOM hook; "
               "assumed: a browser parses the emitted subset as the standard says ('in body' fragment case). Streaming "
               "(in-order / out-of-order) forms are compared with the synchronous string for non-suspending views, not "
-              "proved; Suspense boundaries are outside this property's model. No axioms.")
+              "proved. Compared, not proved (oracle: hydrated tree == client-built twin): the other string / primitive "
+              "types, EitherOfN, StaticVec, arrays, attribute representations and spreading, custom / SVG elements, "
+              "reactive closures and signals as children and attribute values with post-hydration updates under an "
+              "executor, Suspends pending on the client, leptos <Show>/<For>/<Suspense>/<Transition>/<ErrorBoundary> "
+              "through hydration (coverage/C05.md lists every entry point). Not driven: to_html*_branching forms, "
+              "hydrate::<false> (templates), islands, reactive_impl! for store fields, Suspend-valued attributes. No axioms.")
 TECHNIQUE = ("Coq proof (structural induction over views with an invariant tying the printer's Position to the walker's "
              "cursor; tokenizer/tree-builder run lemmas) + differential correspondence of the extracted model with the Rust code")
